@@ -106,14 +106,14 @@ def lik_case(ctx, rng, reqs, meta, forced=None):
         scale = rng.choice([1e-8, 1e5, 1e5])
     if forced:
         d, scale = forced['d'], forced['scale']
-        n = d + rng.randint(10, 60)
+        n = d + rng.randint(40, 70)
     rs = np.random.RandomState(rng.randrange(2**31))
     A = rs.randn(d, d) * rng.choice([0.3, 1.0]) + np.eye(d)
     ssx = (rs.randn(n, d) @ A.T + rs.randn(d)) * scale
     far = rng.random() < .3
     if rng.random() < .3:
         ssx = np.asfortranarray(ssx) if rng.random() < .5 else np.ascontiguousarray(ssx[:, ::-1])[:, ::-1]     # same values, other memory layout / a strided view
-    y = ssx.mean(0) + (rng.choice([3.0, 8.0]) if far else 0.3) * rs.randn(d) * scale
+    y = ssx.mean(0) + (rng.choice([3.0, 8.0]) if far else (0.02 if forced else 0.3)) * rs.randn(d) * scale     # (forced cases: psi stays positive definite)
     kind = rng.choice(['standard', 'standard-whiten', 'standard-warton', 'unbiased', 'unbiased', 'mean', 'variance'])
     if forced:
         kind, far = forced['kind'], False
